@@ -8,7 +8,7 @@ ensure_env()
 from progcorpus import *  # noqa
 from gen_subs import gen_sub_program
 
-PROOF_FILES = []
+PROOF_FILES = ["Comp/SpillSem.v", "Proofs/SpillProof.v", "Proofs/PrologueProof.v", "Proofs/CallPartial.v", "Proofs/CallExamples.v"]
 
 
 def I_(n):
